@@ -31,6 +31,10 @@ func (rt *runtime) toValueArray(arguments ...interface{}) []Value {
 }
 
 func stringToArrayIndex(name string) int64 {
+	// Only the canonical decimal form is an array index: no sign, no leading zeros.
+	if name == "" || name[0] < '0' || name[0] > '9' || (name[0] == '0' && len(name) > 1) {
+		return -1
+	}
 	index, err := strconv.ParseInt(name, 10, 64)
 	if err != nil {
 		return -1
